@@ -258,7 +258,7 @@ impl Observer for Obs {
         ACTIVITY.fetch_add(1, SeqCst);
         if let (Some(tap), false) = (tap, FROZEN.load(SeqCst)) {
             if let Some(s) = read_frame(&f.message.to_vec()) {
-                log(format!("A:{}:{}:{}:{}", tap, f.sender, seg_str(&s), collides(s.dst) as u8));
+                log(format!("A:{}:{}:{}", tap, f.sender, seg_str(&s)));
             }
         }
         DLV.fetch_add(1, SeqCst);
@@ -483,7 +483,7 @@ enum Ev {
     S(usize),
     I(usize),
     F(usize, i64, Seg),
-    A(usize, i64, Seg, bool),
+    A(usize, i64, Seg),
     N(usize, usize, Ep, Ep),
     B(usize, usize, Ep, Ep, usize),
 }
@@ -505,7 +505,7 @@ fn parse_event(e: &str) -> Option<Ev> {
         'S' if head.len() > 1 => Some(Ev::S(head[1..].parse().ok()?)),
         'I' if head.len() > 1 => Some(Ev::I(head[1..].parse().ok()?)),
         'F' => Some(Ev::F(n(1)? as usize, n(2)?, parse_seg(&p[3..])?)),
-        'A' if p.len() == 12 => Some(Ev::A(n(1)? as usize, n(2)?, parse_seg(&p[3..11])?, n(11)? == 1)),
+        'A' if p.len() == 11 => Some(Ev::A(n(1)? as usize, n(2)?, parse_seg(&p[3..11])?)),
         'N' if p.len() == 7 => Some(Ev::N(n(1)? as usize, n(2)? as usize, (n(3)? as u32, n(4)? as u16), (n(5)? as u32, n(6)? as u16))),
         'B' if p.len() == 8 => Some(Ev::B(n(1)? as usize, n(2)? as usize, (n(3)? as u32, n(4)? as u16), (n(5)? as u32, n(6)? as u16), n(7)? as usize)),
         _ => None,
@@ -557,15 +557,12 @@ struct SessInfo {
 ///  * without a binding: no session; at most one reply, the text-free RST of RFC 9293 3.10.7.1 sent to the
 ///    interface the segment came from;
 ///  * machines emit nothing else.
-fn oracle(case: &Case, evs: &[Ev], hung: bool) -> Result<(), String> {
+fn oracle(case: &Case, evs: &[Ev]) -> Result<(), String> {
     let nm = case.machines.len();
     let mut listen: Vec<HashMap<Ep, usize>> = vec![HashMap::new(); nm];
     let mut sess: Vec<HashMap<(Ep, Ep), SessInfo>> = vec![HashMap::new(); nm];
     // replies owed: (machine, to, segment, mandatory)
-    let mut owed: Vec<(usize, i64, Seg, bool, u32)> = vec![];
-    let mut deviation: Option<String> = None;
-    // (machine, segment, collide, had a session, had an exact binding) of the last arrival
-    let mut last_arrival: Option<(usize, Seg, bool, bool, bool)> = None;
+    let mut owed: Vec<(usize, i64, Seg, bool)> = vec![];
     let mut injected: Vec<(usize, i64, Seg)> = vec![];
     for ev in evs {
         match ev {
@@ -630,16 +627,6 @@ fn oracle(case: &Case, evs: &[Ev], hung: bool) -> Result<(), String> {
                 {
                     stat(if owed[i].3 { "reply: RST from a listening port" } else { "reply: RST from a closed port" });
                     owed.swap_remove(i);
-                } else if let Some(i) = owed.iter().position(|x| !x.3 && x.0 == *m && x.1 == *to && x.2.flags == (RST | ACK) && Seg { ack: s.ack, ..x.2.clone() } == *s && x.4 == s.ack) {
-                    // the reply as the code computes it: ACK = SEG.SEQ + text length, SYN and FIN not counted
-                    stat("reply: RST from a closed port with ACK = SEG.SEQ + text length (SYN/FIN not counted)");
-                    if deviation.is_none() {
-                        deviation = Some(format!(
-                            "machine {} answered a SYN/FIN segment to a closed port with {}; RFC 9293 3.10.7.1 prescribes ACK = SEG.SEQ + SEG.LEN = {} (SEG.LEN counts SYN and FIN): an active opener drops this reset as unacceptable (3.10.7.3) and never learns that the connection was refused",
-                            m, segstr(s), owed[i].2.ack
-                        ));
-                    }
-                    owed.swap_remove(i);
                 } else {
                     let near = owed.iter().find(|x| x.0 == *m && x.2.src == s.src && x.2.dst == s.dst);
                     return Err(match near {
@@ -648,9 +635,8 @@ fn oracle(case: &Case, evs: &[Ev], hung: bool) -> Result<(), String> {
                     });
                 }
             }
-            Ev::A(m, from, s, coll) => {
+            Ev::A(m, from, s) => {
                 let pair = (s.dst, s.src);
-                last_arrival = Some((*m, s.clone(), *coll, sess[*m].contains_key(&pair), listen[*m].contains_key(&s.dst)));
                 if let Some(info) = sess[*m].get_mut(&pair) {
                     stat("arrival: existing session");
                     info.disturbed = true;
@@ -668,7 +654,7 @@ fn oracle(case: &Case, evs: &[Ev], hung: bool) -> Result<(), String> {
                             stat("arrival: RST to a listening port (ignored)");
                         } else if s.flags & ACK != 0 {
                             stat("arrival: ACK to a listening port (reset)");
-                            owed.push((*m, *from, rst_to_ack, true, 0));
+                            owed.push((*m, *from, rst_to_ack, true));
                         } else if s.flags & SYN != 0 {
                             stat(if exact.is_some() { "arrival: SYN creates a session (exact binding)" } else { "arrival: SYN creates a session (wildcard binding)" });
                             sess[*m].insert(pair, SessInfo { app, irs: Some(s.seq), synack_seq: None, notified: false, disturbed: false });
@@ -681,12 +667,12 @@ fn oracle(case: &Case, evs: &[Ev], hung: bool) -> Result<(), String> {
                             stat("arrival: RST to a closed port (ignored)");
                         } else if s.flags & ACK != 0 {
                             stat("arrival: ACK segment to a closed port");
-                            owed.push((*m, *from, rst_to_ack, false, 0));
+                            owed.push((*m, *from, rst_to_ack, false));
                         } else {
                             stat(if s.flags & (SYN | FIN) != 0 { "arrival: SYN/FIN without ACK to a closed port" } else { "arrival: plain segment to a closed port" });
                             // SEG.LEN counts SYN and FIN (RFC 9293 3.4)
                             let seglen = s.tlen as u32 + (s.flags & SYN != 0) as u32 + (s.flags & FIN != 0) as u32;
-                            owed.push((*m, *from, Seg { src: s.dst, dst: s.src, flags: RST | ACK, seq: 0, ack: s.seq.wrapping_add(seglen), tlen: 0 }, false, s.seq.wrapping_add(s.tlen as u32)));
+                            owed.push((*m, *from, Seg { src: s.dst, dst: s.src, flags: RST | ACK, seq: 0, ack: s.seq.wrapping_add(seglen), tlen: 0 }, false));
                         }
                     }
                 }
@@ -716,16 +702,6 @@ fn oracle(case: &Case, evs: &[Ev], hung: bool) -> Result<(), String> {
             }
         }
     }
-    if hung {
-        return Err(match last_arrival {
-            Some((m, s, true, false, false)) => format!(
-                "DEADLOCK:the simulation hung while machine {} processed {}: no session, no exact listen binding, and {}:{} shares a DashMap shard with 0.0.0.0:{} - Tcp::demux (tcp.rs:144-151) calls listen_bindings.entry() for the wildcard key while the vacant entry of the exact key still holds the shard's write lock",
-                m, segstr(&s), ipstr(s.dst.0), s.dst.1, s.dst.1
-            ),
-            Some((m, s, ..)) => format!("the simulation hung while machine {} processed {} (not the known lock collision)", m, segstr(&s)),
-            None => "the simulation hung before any segment arrived".to_string(),
-        });
-    }
     if let Some(x) = owed.iter().find(|x| x.3) {
         return Err(format!("machine {} never sent the reset {} it owes for an ACK segment to a listening port", x.0, segstr(&x.2)));
     }
@@ -739,10 +715,7 @@ fn oracle(case: &Case, evs: &[Ev], hung: bool) -> Result<(), String> {
             }
         }
     }
-    match deviation {
-        Some(d) => Err(format!("KNOWN:{}", d)),
-        None => Ok(()),
-    }
+    Ok(())
 }
 
 // ------------------------------------------------------------------ generator
@@ -771,20 +744,12 @@ fn gen_case(rng: &mut Rng, _idx: usize) -> Case {
         }
         machines.push(MCfg { napps: 1 + rng.below(4) as usize, routes });
     }
-    // Ports are drawn so that NO address of the scenario shares a DashMap shard with the wildcard key of that
-    // port (see `collides`): otherwise ~1% of the segments would hang the simulation (the self-deadlock of
-    // Tcp::demux) and hide everything else.  The deadlock is probed deliberately in 4% of the cases below.
-    let mut addrs: Vec<u32> = (0..10u8).map(spoof).collect();
-    for i in 0..nm {
-        addrs.extend([own(i, 1), own(i, 2), u32::from_be_bytes([10, 0, 250, i as u8])]);
-    }
-    let safe = |p: u16| addrs.iter().all(|a| !collides((*a, p)));
     let port = |rng: &mut Rng| -> u16 {
-        let mut p = if rng.coin(3, 4) { *rng.pick(&[80u16, 443, 8080, 0, 65535]) } else { rng.below(65536) as u16 };
-        while !safe(p) {
-            p = p.wrapping_add(1);
+        if rng.coin(3, 4) {
+            *rng.pick(&[80u16, 443, 8080, 0, 65535])
+        } else {
+            rng.below(65536) as u16
         }
-        p
     };
     let u32v = |rng: &mut Rng| -> u32 { pick_w(rng, &[(0u32, 1), (u32::MAX, 1), (0x7fff_ffff, 1), (rng.clone().u32(), 6)]) };
     let flags = |rng: &mut Rng| -> u8 {
@@ -964,10 +929,13 @@ fn gen_case(rng: &mut Rng, _idx: usize) -> Case {
         }
     }
     let mut flavor = if rng.coin(8, 100) { *rng.pick(&[2usize, 4]) } else { 0 };
-    if rng.coin(4, 100) {
-        // deadlock probe: a SYN whose destination endpoint shares a shard with (0.0.0.0, port) and has no exact
-        // binding - either the wildcard address itself (always) or an address/port pair found by search
-        flavor = 0;
+    if rng.coin(8, 100) {
+        // shard probe (regression of b7a73ede): a SYN whose destination endpoint shares a DashMap shard with
+        // (0.0.0.0, port) and has no exact binding - the wildcard address itself (always) or an address/port pair
+        // found by asking a real FxDashMap; it must be processed like any other segment
+        if rng.coin(1, 2) {
+            flavor = 0;
+        }
         let (j, e) = if bound.is_empty() { (0, (own(0, 1), 80)) } else { *rng.pick(&bound) };
         let taken = |q: Ep| bound.iter().any(|b| b.0 == j && b.1 == q);
         let dst: Option<Ep> = if rng.coin(1, 2) {
@@ -1028,8 +996,13 @@ impl Family for C03c {
                     oracle: Oracle::Fail(format!("the simulation crashed (exit {:?}) after {} events; stderr: {}", r.exit_code, r.events.len(), short)),
                 };
             }
-            if hung {
+            if hung && r.events.len() <= 6000 {
                 stat("child hung");
+                let last: Vec<String> = r.events.iter().rev().take(3).map(|e| e.1.clone()).collect();
+                return Outcome {
+                    impl_line: "CRASH hang".into(),
+                    oracle: Oracle::Fail(format!("the simulation hung (killed after the wall-clock limit of a virtual-time script); last events, newest first: {:?}", last)),
+                };
             }
             let mut anomalies = 0usize;
             let mut evs = vec![];
@@ -1057,25 +1030,12 @@ impl Family for C03c {
                 }
             }
             toks.push(format!("X={}", anomalies));
-            if hung {
-                toks.push("HANG".into());
-            }
             let line = toks.join(" ");
-            let verdict = if anomalies > 0 { Err(format!("anomaly: {}", first_anom)) } else { oracle(&case, &evs, hung) };
+            let verdict = if anomalies > 0 { Err(format!("anomaly: {}", first_anom)) } else { oracle(&case, &evs) };
             match verdict {
                 Ok(()) => return Outcome { impl_line: line, oracle: Oracle::Ok },
                 Err(msg) => {
-                    let o = if let Some(d) = msg.strip_prefix("KNOWN:") {
-                        Oracle::Known("closed_reply_ack_ignores_syn_fin".into(), d.to_string())
-                    } else if let Some(d) = msg.strip_prefix("DEADLOCK:") {
-                        Oracle::Known("tcp_demux_listen_lookup_self_deadlock".into(), d.to_string())
-                    } else {
-                        Oracle::Fail(msg.clone())
-                    };
-                    if matches!(o, Oracle::Known(..)) {
-                        // deterministic behaviour of the code, not a scheduling artefact: no repetition
-                        return Outcome { impl_line: line, oracle: o };
-                    }
+                    let o = Oracle::Fail(msg.clone());
                     if k + 1 < attempts {
                         stat("multi_thread run repeated after a failed oracle");
                         let short: String = msg.chars().filter(|c| !c.is_ascii_digit()).take(70).collect();
